@@ -33,6 +33,9 @@ type Target struct {
 	Helper    int      `json:"helper"` // helper module used by templates 5 and 6
 	Emit      []string `json:"emit,omitempty"`
 	Prints    []string `json:"prints,omitempty"`    // print() calls made before the emitted chunks
+	Exec      int      `json:"exec,omitempty"`      // >0: the body also runs a child process that writes this many lines alternately to its stdout and stderr
+	ExecTry   bool     `json:"exectry,omitempty"`   // ... with try_=True
+	GenSkip   bool     `json:"genskip,omitempty"`   // the declared generated file is optional: the body never writes it
 	GhostDeps []string `json:"ghostdeps,omitempty"` // extra dependency labels that name nothing (missing target, package without a BUILD file)
 	KindDeps  []int    `json:"kinddeps,omitempty"`  // members of Deps whose label is spelled with its kind: target://pkg:name
 	OrdDeps   []int    `json:"orddeps,omitempty"`   // ordering-only dependencies on targets with lower IDs: declared, not read by the body
@@ -60,6 +63,28 @@ type Model struct {
 	Gated    bool              `json:"gated,omitempty"`    // BUILD files call vf.gate/vf.done so that the harness can impose a package load order
 	Ignore   []string          `json:"ignore,omitempty"`
 	Seq      int               `json:"seq,omitempty"` // counter for names of added sources
+}
+
+// ExecScript is the shell script of a body with Exec = n: n lines, odd ones to stderr.
+func ExecScript(n int) string {
+	var b strings.Builder
+	for i := 0; i < n; i++ {
+		if i%2 == 1 {
+			fmt.Fprintf(&b, "echo child line %d >&2; ", i)
+		} else {
+			fmt.Fprintf(&b, "echo child line %d; ", i)
+		}
+	}
+	return b.String()
+}
+
+// ExecLines are the lines that script writes, in order.
+func ExecLines(n int) []string {
+	var out []string
+	for i := 0; i < n; i++ {
+		out = append(out, fmt.Sprintf("child line %d", i))
+	}
+	return out
 }
 
 // AllLabels returns the labels of every live target, of their declared sources and of the default
@@ -412,6 +437,9 @@ func (m *Model) renderTarget(t *Target) string {
 		ins = fmt.Sprintf("[FLAGV, K%d]", id)
 	case 8:
 		ins = fmt.Sprintf("[T%d, K%d]", m.valueTarget(t), id)
+	case 11:
+		// a helper and a constant defined below the target (module globals are bound late)
+		ins = fmt.Sprintf("[late%d(1)]", id)
 	case 10:
 		// a helper that calls itself (its fingerprint holds a placeholder for the recursive reference)
 		fmt.Fprintf(&b, "def rec%d(n):\n    if n <= 0:\n        return K%d\n    return rec%d(n - 1)\n", id, id, id)
@@ -468,11 +496,18 @@ func (m *Model) renderTarget(t *Target) string {
 		}
 		fmt.Fprintf(&b, "%svf.emit(%s)\n", indent, strings.Join(q, ", "))
 	}
+	if t.Exec > 0 {
+		try := ""
+		if t.ExecTry {
+			try = ", try_=True"
+		}
+		fmt.Fprintf(&b, "%sos.exec([\"sh\", \"-c\", %s]%s)\n", indent, quote(ExecScript(t.Exec)), try)
+	}
 	fmt.Fprintf(&b, "%svf.point(%s, \"mid\")\n", indent, quote(lbl))
 	fmt.Fprintf(&b, "%svf.write(%s, vf.digest(%s, %d, ins, srcs, deps))\n", indent, quote(m.OutPath(id)), quote(lbl), t.Salt)
 	fmt.Fprintf(&b, "%svf.wipe_if(%s)\n", indent, quote(t.Name()))
 	fmt.Fprintf(&b, "%svf.fail_if(%s)\n", indent, quote(t.Name()))
-	if t.Gen {
+	if t.Gen && !t.GenSkip {
 		fmt.Fprintf(&b, "%svf.write(%s, vf.digest(\"gen\", %s, %d, ins, srcs, deps))\n", indent, quote(m.GenPath(id)), quote(lbl), t.Salt)
 	}
 	fmt.Fprintf(&b, "%svf.point(%s, \"late\")\n", indent, quote(lbl))
@@ -539,5 +574,8 @@ func (m *Model) renderTarget(t *Target) string {
 		args = append(args, "always=True")
 	}
 	fmt.Fprintf(&b, "T%d = target(%s)\n", id, strings.Join(args, ", "))
+	if body == 11 {
+		fmt.Fprintf(&b, "def late%d(x):\n    return [x, KL%d]\nKL%d = %s\n", id, id, id, t.K)
+	}
 	return b.String()
 }
